@@ -6,9 +6,10 @@ so the kernel re-checks them against what tags.py / svg.py / __init__.py / gener
 import HtmlVerif.Generated.Tables
 import HtmlVerif.Generated.TagFns
 import HtmlVerif.Model.TagFn
+import HtmlVerif.Spec.TagCensus
 
 namespace HtmlVerif.C19
-open HtmlVerif HtmlVerif.Generated
+open HtmlVerif HtmlVerif.Generated HtmlVerif.TagCensus
 
 /-- every function body is exactly `return Tag("<lit>", *args, _add_ws=_add_ws, **kwargs)` with signature
     `(*args, _add_ws=<bool constant>, **kwargs)`: children, dicts and keywords are forwarded untouched -/
@@ -33,6 +34,31 @@ theorem C19_tables_ok : allShapesOk = true ∧ htmlFns ≠ [] ∧ svgFns ≠ [] 
 theorem C19_reexport :
     reexportShapeOk = true ∧ reexports ≠ [] ∧
     reexports.all (fun n => initAll.contains n && htmlFns.any (fun r => r.fnName == n)) = true := by
+  decide +kernel
+
+/-- **census** (by name, never by count): every public tag function of the pinned tree — the 113 html and 66 svg
+    wrappers and the 17 top-level shortcuts the property quantifies over, recorded by harness/mkcensus.py — still
+    has a row (so `C19_shape/_name/_default/_call` speak about it) / is still imported from `.tags` and exported in
+    `__all__`.  Rows that were added since are allowed (the harness lists them in the evidence). -/
+theorem C19_census :
+    censusHtml.all (fun n => htmlFns.any (fun r => r.fnName == n)) = true ∧
+    censusSvg.all (fun n => svgFns.any (fun r => r.fnName == n)) = true ∧
+    censusTop.all (fun n => reexports.contains n && initAll.contains n) = true := by
+  decide +kernel
+
+/-- what the modules themselves declare: every name in `tags.__all__` is a wrapper of tags.py; and every name of
+    the `__all__` that scripts/generate_tags.py writes into tags.py (when the translator located it) is a wrapper
+    and is in the current `tags.__all__` -/
+theorem C19_declared_exports :
+    tagsAll.all (fun n => htmlFns.any (fun r => r.fnName == n)) = true ∧
+    (match genTagsAll with
+     | none => true
+     | some g => g.all (fun n => htmlFns.any (fun r => r.fnName == n) && tagsAll.contains n)) = true := by
+  decide +kernel
+
+/-- the census is not vacuous -/
+example : censusHtml.length ≥ 100 ∧ censusSvg.length ≥ 60 ∧ censusTop.length ≥ 17 ∧
+    censusHtml.contains ['l','a','b','e','l'] = true ∧ censusSvg.contains ['t','e','x','t','P','a','t','h'] = true := by
   decide +kernel
 
 /-- calling any wrapper: default flag when `_add_ws` is omitted, explicit bool honoured, non-bool rejected -/
